@@ -2,6 +2,7 @@ import Req.Driver.Proto
 import Req.Client.Redirect
 import Req.Client.Authority
 import Req.Client.RedirectLifetime
+import Req.Client.RedirectLoop
 /-! Driver lanes of C11 (redirect policies). -/
 namespace Req.Driver.L.C11
 open Req.Proto Req.Redirect
@@ -180,6 +181,213 @@ def laneCloneChain : List String → String
     | _, _ => "bad-op"
   | _ => "bad-op"
 
+/-! ### the whole hop loop (`Req.Redirect.Loop`) -/
+section LoopLanes
+open Req.Redirect.Loop
+
+def decodeScheme : String → Option Scheme
+  | "h" => some .http
+  | "s" => some .https
+  | _ => none
+
+/-- `-` | `<name>` | `<name>~<pass>` -/
+def decodeUser (s : String) : Option (Option UserInfo) :=
+  if s == "-" then some none else
+  match s.splitOn "~" with
+  | [n] => (decodeHex n).map fun n => some ⟨n, none⟩
+  | [n, p] => do
+    let n ← decodeHex n
+    let p ← decodeHex p
+    pure (some ⟨n, some p⟩)
+  | _ => none
+
+/-- `S|U|H|P|M|F|B` + a header map -/
+def decodeReq (s : String) (hdr : Headers) : Option Loop.Req :=
+  match s.splitOn "|" with
+  | [sc, u, h, p, m, f, b] => do
+    let sc ← decodeScheme sc
+    let u ← decodeUser u
+    let h ← decodeHex h
+    let p ← decodeHex p
+    let m ← decodeHex m
+    let f ← decodeHex f
+    pure { url := { scheme := sc, user := u, host := h, path := p }, method := m, hostField := f,
+           hdr := hdr, body := b == "1" }
+  | _ => none
+
+def decodeReqList (s : String) : Option (List Loop.Req) :=
+  if s == "-" then some [] else (s.splitOn ";").mapM fun r => decodeReq r []
+
+/-- `c11policyx <policies> <req> <via reqs> <req headers> <via[0] headers> <probe keys>`: the
+closure evaluated on full requests (Host field, userinfo, scheme, method, path given) — the model
+projects them to what the policies read. -/
+def lanePolicyX : List String → String
+  | [ps, req, via, rh, vh, probes] =>
+    match decodePolicies ps, decodeHeaders rh, decodeHeaders vh, decodeReqList via, decodeList probes with
+    | some ps, some rh, some vh, some (v0 :: vs), some probes =>
+      match decodeReq req rh with
+      | some req =>
+        let v0 := { v0 with hdr := vh }
+        let all := v0 :: vs
+        let (d, h) := checkRedirect ps req all.dropLast (all.getLast?.getD v0)
+        showDecision d ++ " " ++ showProbes h probes
+      | none => "bad-op"
+    | _, _, _, _, _ => "bad-op"
+  | _ => "bad-op"
+
+def decodeCookies (s : String) : Option (List (Bytes × Bytes)) :=
+  if s == "-" then some [] else
+  (s.splitOn "+").mapM fun c =>
+    match c.splitOn "=" with
+    | [n, v] => do
+      let n ← decodeHex n
+      let v ← decodeHex v
+      pure (n, v)
+    | _ => none
+
+/-- `m` | `b` | `a,S,U,H,P` | `n,U,H,P` | `p,P` -/
+def decodeLoc (s : String) : Option Loc :=
+  match s.splitOn "," with
+  | ["m"] => some .missing
+  | ["b"] => some .bad
+  | ["a", sc, u, h, p] => do
+    let sc ← decodeScheme sc
+    let u ← decodeUser u
+    let h ← decodeHex h
+    let p ← decodeHex p
+    pure (.abs sc u h p)
+  | ["n", u, h, p] => do
+    let u ← decodeUser u
+    let h ← decodeHex h
+    let p ← decodeHex p
+    pure (.net u h p)
+  | ["p", p] => (decodeHex p).map .path
+  | _ => none
+
+/-- `<status>|<loc>|<cookies>` -/
+def decodeReply (s : String) : Option Reply :=
+  match s.splitOn "|" with
+  | [st, loc, cs] => do
+    let st ← st.toNat?
+    let loc ← decodeLoc loc
+    let cs ← decodeCookies cs
+    pure { status := st, loc := loc, setCookie := cs }
+  | _ => none
+
+def decodeScript (s : String) : Option (List Reply) :=
+  if s == "-" then some [] else (s.splitOn ";").mapM decodeReply
+
+def showEnd : End → String
+  | .response s => "resp:" ++ toString s
+  | .noLocation s => "resp:" ++ toString s
+  | .useLast s => "resp:" ++ toString s
+  | .refused s => "refused:" ++ toString s
+  | .badLocation => "badloc"
+
+def showUser : Option UserInfo → String
+  | none => "-"
+  | some ⟨n, none⟩ => encodeHex n
+  | some ⟨n, some p⟩ => encodeHex n ++ "~" ++ encodeHex p
+
+def showScheme : Scheme → String
+  | .http => "h"
+  | .https => "s"
+
+/-- The request as the RoundTripper gets it. -/
+def showSent (probes : List Bytes) (r : Loop.Req) : String :=
+  "|".intercalate [showScheme r.url.scheme, showUser r.url.user, encodeHex r.url.host, encodeHex r.url.path,
+    encodeHex r.method, encodeHex r.hostField, b01 r.body,
+    if probes.isEmpty then "." else "/".intercalate (probes.map fun k => encodeList (wireValues (wireHeaders r) k))]
+
+/-- The request as an origin server reads it off the wire. -/
+def showWire (probes : List Bytes) (r : Loop.Req) : String :=
+  let h := wireHeaders r
+  "|".intercalate [showScheme r.url.scheme, encodeHex (dialAddr r.url), encodeHex r.url.path, encodeHex r.method,
+    -- the lanes' TLS origins negotiate HTTP/2, the plain ones speak HTTP/1.1
+    encodeHex (if r.url.scheme = .https then wireAuthority r else wireHost r), b01 r.body,
+    if probes.isEmpty then "." else "/".intercalate (probes.map fun k =>
+      -- Cookie is compared pair by pair: its framing differs between HTTP/1.1 and HTTP/2
+      if Req.Ascii.canonicalMIMEHeaderKey k == hCookie then encodeList (cookieCrumbs (wireValues h k))
+      else encodeList (wireValues h k))]
+
+def decodeCfg (ps : List (Option Policy)) (s : String) : Option Config :=
+  match s.toList with
+  | [j, g, n] => some { ps := ps, jar := j == '1', getBody := g == '1', noBody := n == '1' }
+  | _ => none
+
+def runLoopLane (wire : Bool) : List String → String
+  | [ps, cfg, ireq, ih, script, probes] =>
+    match decodePolicies ps, decodeHeaders ih, decodeScript script, decodeList probes with
+    | some ps, some ih, some script, some probes =>
+      match decodeCfg ps cfg, decodeReq ireq ih with
+      | some cfg, some ireq =>
+        let (sent, e) := start cfg ireq script
+        showEnd e ++ " " ++ toString sent.length ++ " " ++
+          ";".intercalate (sent.map (if wire then showWire probes else showSent probes))
+      | _, _ => "bad-op"
+    | _, _, _, _ => "bad-op"
+  | _ => "bad-op"
+
+/-- `c11loop <policies> <jar,getBody,noBody bits> <initial request> <its headers> <script> <probe keys>`
+→ `<end> <requests sent> <each request as the RoundTripper saw it>`. -/
+def laneLoop : List String → String := runLoopLane false
+
+/-- `c11wire …` same input → each request as the origin server read it. -/
+def laneWire : List String → String := runLoopLane true
+
+/-- `c11api <policies> <jar bit, AllowGetMethodPayload bit> <request S|U|H|P|M|_|B> <request headers> <request cookies>
+<common headers> <common cookies> <script> <probe keys>`: the call as the caller configured it. -/
+def runApiLane (wire : Bool) : List String → String
+  | [ps, jar, req, rh, rc, ch, cc, script, probes] =>
+    match decodePolicies ps, decodeHeaders rh, decodeCookies rc, decodeHeaders ch, decodeCookies cc,
+        decodeScript script, decodeList probes with
+    | some ps, some rh, some rc, some ch, some cc, some script, some probes =>
+      match decodeReq req rh with
+      | some r =>
+        let (sent, e) := apiStart ps (jar.take 1 == "1")
+          { commonHeaders := ch, commonCookies := cc, allowGetPayload := jar.drop 1 != "0" }
+          { url := r.url, method := r.method, headers := rh, cookies := rc, body := r.body } script
+        showEnd e ++ " " ++ toString sent.length ++ " " ++
+          ";".intercalate (sent.map (if wire then showWire probes else showSent probes))
+      | none => "bad-op"
+    | _, _, _, _, _, _, _ => "bad-op"
+  | _ => "bad-op"
+
+def laneApi : List String → String := runApiLane false
+
+/-- `c11apiw …`: same input as `c11api` → each request as the origin server read it off the wire
+(scheme, dial address, path, method, `Host`, body, header values). -/
+def laneApiW : List String → String := runApiLane true
+
+/-- `c11alt <h|s> <URL.Host> <alt host> <alt port>` → `URL.Host` of the copy `ConvertURL` makes. -/
+def laneAlt : List String → String
+  | [sc, host, ah, ap] =>
+    match decodeScheme sc, decodeHex host, decodeHex ah, decodeHex ap with
+    | some sc, some host, some ah, some ap => encodeHex (convertHost { host := ah, port := ap } sc host)
+    | _, _, _, _ => "bad-op"
+  | _ => "bad-op"
+
+/-- `c11fam <ops> <j> <lane> <args…>`: lane `<lane>` with the policies client `j` of the family
+enforces. -/
+def laneFam : List String → String
+  | ops :: j :: lane :: rest =>
+    match decodeLifeOps ops, j.toNat? with
+    | some h, some j =>
+      match (Lifetime.run "max:10" h)[j]? with
+      | some ps =>
+        match lane with
+        | "c11policyx" => lanePolicyX (ps :: rest)
+        | "c11loop" => laneLoop (ps :: rest)
+        | "c11wire" => laneWire (ps :: rest)
+        | "c11api" => laneApi (ps :: rest)
+        | "c11apiw" => laneApiW (ps :: rest)
+        | _ => "bad-op"
+      | none => "no-client"
+    | _, _ => "bad-op"
+  | _ => "bad-op"
+
+end LoopLanes
+
 def lanes : List (String × (List String → String)) := [
   ("c11split", laneSplit),
   ("c11host", laneHost),
@@ -189,7 +397,14 @@ def lanes : List (String × (List String → String)) := [
   ("c11policy", lanePolicy),
   ("c11chain", laneChain),
   ("c11clone", laneClone),
-  ("c11clonechain", laneCloneChain)
+  ("c11clonechain", laneCloneChain),
+  ("c11policyx", lanePolicyX),
+  ("c11loop", laneLoop),
+  ("c11wire", laneWire),
+  ("c11api", laneApi),
+  ("c11apiw", laneApiW),
+  ("c11alt", laneAlt),
+  ("c11fam", laneFam)
 ]
 
 end Req.Driver.L.C11
